@@ -6,6 +6,8 @@ Pure stdlib helper, no side effects on import.  API:
   mutate(rng, src) -> str               mutated/truncated variant (not necessarily valid, UTF-8 encodable)
   shrink(src, still_fails, max_calls=200) -> str   statement-deletion / ddmin shrinking
   features_of(src) -> set[str]          lower-cased ast node class names;  FEATURES lists all tags
+  token_programs(max_dots=7) -> (groups, rejected)   systematic token/grammar interaction snippets (dot runs in relative
+                                        imports, `...` everywhere, glued operators, soft keywords), grouped into modules
 Knobs (module globals): CYTHON_HEADER (first comment line of gen_program output), PEP701_PROB, TYPES.
 Name discipline: all generated names are globally unique (vN/fN/CN/...), names are only read
 after a definite top-of-scope binding, locals are initialised at the top of every function,
@@ -526,6 +528,13 @@ class G:
         if k < .6: r = 'import %s as %s' % (s.ch(SUBMODS + MODS), t)
         else:
             m, a = s.ch(FROMS)
+            if s.p(.3):                 # relative import: a run of 1..7 dots ('...' is one token), written glued or spaced
+                dots = '.' * s.ri(1, 7)
+                if s.p(.3): dots = ' '.join(dots)
+                elif s.p(.2) and len(dots) > 1:
+                    i = s.ri(1, len(dots) - 1)
+                    dots = dots[:i] + ' ' + dots[i:]
+                m, a = dots + s.ch(['', '', ' pkg', 'pkg.mod', ' ' + m]), s.ch(['name', a])
             r = s.ch(['from %s import %s as %s', 'from %s import (%s as %s)', 'from %s import (%s as %s,)'])
             r = r % (m, a, t)
         s.reg(c, t)
@@ -770,6 +779,183 @@ def gen_literal_program(rng):
             ch(['-0', '1_0', '0x_f', '-1.5e3', '1+2j', '-0.0-0j', '"a" \'b\'', 'b"\\x00"', 'None', '1_0j', '.5', '0b1'])
             for _ in range(r.randint(1, 5))))
     return '\n'.join(out) + '\n'
+
+
+# ---------------------------------------------------------------- token-interaction programs
+# Systematic (not random) snippets for every place where the tokenizer's multi-character tokens meet the grammar:
+# dot runs of every length in `from` imports ('...' is ONE token for the scanner), `...` as an expression in every
+# position, and operators written without spaces (-> := ** //= >>= @= != <= << ...), soft keywords used as names,
+# glued keywords / literals, odd continuation lines.  Every snippet only uses the names bound by TOKEN_PRELUDE, so that
+# snippets can be concatenated into one module and a failing group can be bisected.  The oracle for each is CPython's
+# compile() (acceptance only: none of this is executed).  Left out because they are open findings with their own probe in
+# props/C43.py (FAMILY_PROBES): `l[...:...]` (slice_bound_type_name_or_ellipsis), `l[y:=1]` (unparenthesized_walrus_in_subscript).
+TOKEN_PRELUDE = ('import os\n'
+                 'def f(*a, **k): return 0\n'
+                 'a = b = c = d = x = y = z = w = n = v = 1\n'
+                 'l = [1, 2, 3]\n'
+                 'dd = {"a": 1}\n'
+                 'class K:\n    q = 0\n'
+                 'o = K()\n')
+
+
+def dot_run_spellings(n):
+    """all ways this family writes a run of n dots after `from`: glued, all separate, and every split in two parts"""
+    out = ['.' * n]
+    if n > 1:
+        out.append(' '.join('.' * n))
+        for i in range(1, n):
+            out.append('.' * i + ' ' + '.' * (n - i))
+    if n > 3:
+        out.append('... ' * (n // 3) + '.' * (n % 3))
+        out.append('.' * (n % 3) + ' ...' * (n // 3))
+    return list(dict.fromkeys(x.strip() for x in out))
+
+
+def relative_import_snippets(max_dots=7, all_spellings=False):
+    """(label, snippet, module_level_only) for `from <dots>[module] import ...` with 1..max_dots dots"""
+    out = []
+    for n in range(1, max_dots + 1):
+        if n <= 4 or (all_spellings and n <= 7):
+            spellings = dot_run_spellings(n)
+        else:
+            spellings = ['.' * n, ' '.join('.' * n), ('... ' * (n // 3) + '.' * (n % 3)).strip()]
+        for j, dots in enumerate(spellings):
+            forms = [('bare', 'from %s import x' % dots),
+                     ('mod', 'from %spkg.mod import y as z, w' % dots),
+                     ('paren', 'from %s import (a, b as c,)' % dots),
+                     ('nospace', 'from %simport x' % dots),
+                     ('modparen', 'from %s pkg import(a)' % dots)]
+            if j:
+                forms = forms[:2]
+            for name, st in forms:
+                out.append(('relimp_%d_%d_%s' % (n, j, name), st, False))
+                out.append(('relimp_%d_%d_%s_func' % (n, j, name), 'def g_%d_%d_%s():\n    %s\n    return 0' % (n, j, name, st), False))
+            if not j:
+                out.append(('relimp_%d_star' % n, 'from %s import *' % dots, True))
+                out.append(('relimp_%d_modstar' % n, 'from %spkg import *' % dots, True))
+                out.append(('relimp_%d_cont' % n, 'from %s\\\n    import x' % dots, False))
+                if n > 1:
+                    out.append(('relimp_%d_contsplit' % n, 'from %s\\\n%s import x' % ('.' * (n - 1), '.'), False))
+    return out
+
+
+_ELLIPSIS_SNIPPETS = [
+    'x = ...', 'x = (...)', 'x = [...]', 'x = ..., ...', 'x = l[...]', 'x = l[..., 1]', 'x = l[1, ...]',
+    'x = l[..., ...]', 'x = l[...,]', 'f(...)', 'f(..., ...)', 'f(a=...)', 'f(*..., **dd)', 'x = ... if ... else ...',
+    'x = ... is ...', 'x = ... is not ...', 'x = not ...', 'x = ... == ...', 'x = ... or ...', 'x = {...: ...}', 'x = {...}',
+    'x = lambda: ...', 'x = lambda a=...: a', 'xe: ... = ...', 'x = ....__class__', 'x = ... .__class__', 'x = (...).__class__',
+    'x = ....__class__.__name__', 'x = [... for y in l]', 'x = [y for y in l if ...]', 'x = f"{...}"', 'x = f"{...!r:>10}"',
+    '...', '...; ...', '... ;x = 1', 'assert ...', 'assert ..., ...', 'del l[...]', 'l[...] = ...', 'x = (y := ...)',
+    'def e1(a=..., *b, c=...) -> ...: ...', 'def e2():\n    return ...', 'def e3():\n    yield ...', 'def e4(): ...',
+    'class E1: ...', 'class E2:\n    ...\n    q = ...', 'async def e5(): ...', 'async def e6():\n    await ...',
+    'if ...: ...', 'while ...: break', 'for x in ...: ...', 'with f(...) as x: ...', 'try: ...\nexcept ...: ...',
+    'try: ...\nfinally: ...', 'match ...:\n    case _: ...', 'raise ...', 'x = l[...][...]', 'x = ...,', 'x = *..., 1',
+    'print(..., sep=...)', 'x = 1 if ... else...', 'x = [...,...]', 'x = ...if ...else...',
+]
+
+_OPERATOR_SNIPPETS = [
+    # -> and : adjacency
+    'def o1()->int:pass', 'def o2()->-1:pass', 'def o3(a:int=1,*b:int,c:int=2,**k:int)->int:return a', 'def o4()->...:...',
+    'def o5(a,/,b,*,c):pass', 'def o6(*,a):pass', 'def o7(a,/):pass', 'def o8(*a,**k):pass', 'x=lambda:-1', 'x=lambda*a,**k:0',
+    'x=lambda a,/,b=1,*,c=2:0', 'x=lambda:(yield)', 'x=l[::]', 'x=l[::-1]', 'x=l[:-1]', 'x=l[1::2]', 'x=l[a:b:c]', 'x=l[-1:]',
+    'x={1:2}', 'x={1:lambda:0}', 'x:int=1', 'x:int', 'o.q:int=1', 'l[0]:int=1', 'dd={"a":lambda:0,"b":l[::2]}',
+    # := adjacency
+    '(x:=1)', 'x=[y:=1,y]', 'f(x:=1)', 'x=l[(y:=1):2]', 'x={(y:=1):2}', 'if(n:=10)>5:pass', 'x=f"{(y:=5)}"',
+    'x=lambda:(y:=1)', 'x=[(y:=z)for z in l]', 'while(n:=n-1)>0:pass', 'x=(y:=1,2)', 'f(a:=1,b:=2)' if False else 'f((a:=1),b=(c:=2))',
+    # ** and * adjacency
+    'x=2**-1', 'x=-2**2', 'x=a**b**-c', 'x=2**3**2', 'f(**dd)', 'f(*l,**dd)', 'f(*l,*l,**dd,**dd)', 'x={**dd}', 'x={**dd,**dd}',
+    'x**=2', 'x=[*l,*l]', 'x={*l}', 'x=*l,', '*x,=l', 'x,*y=l', 'x,*y,z=l', 'for*x,y in[l]:pass', 'print(*l)', 'x=a*-b', 'x=a**-b',
+    'x=a*+b', 'x=a*~b',
+    # augmented assignment operators, glued
+    'x//=2', 'x>>=1', 'x<<=1', 'x@=y', 'x**=y', 'x&=y', 'x|=y', 'x^=y', 'x%=y', 'x/=y', 'x-=-1', 'x+=+1', 'x*=*l,' if False else 'x*=-1',
+    'o.q//=2', 'l[0]>>=1', 'x//=y//z', 'x>>=y>>z', 'x<<=y<<z', 'x@=y@z', 'x**=y**z',
+    # comparisons glued
+    'x=a!=b', 'x=a!=-1', 'x=a==b', 'x=a==-b', 'x=a<=b>=c', 'x=a<b>c', 'x=a<-b', 'x=a>-b', 'x=a<<b>>c', 'x=a<<-b', 'x=a>>+b',
+    'x=a<=-b', 'x=a>=+b', 'x=a!=~b', 'x=a<b<=c<d!=n', 'x=a is not b', 'x=a not in l', 'x=not a', 'x=a if b else c',
+    'x=f"{a!r}"', 'x=f"{a!=b}"', 'x=f"{a!r:>{w}}"', 'x=f"{a != b!r}"', 'x=f"{a==b}"', 'x=f"{a=}"', 'x=f"{a = }"', 'x=f"{a=!r}"',
+    'x=f"{a:=^10}"', 'x=f"{(a:=1)}"', 'x=f"{l[::2]}"', 'x=f"{a:{b}.{c}}"', 'x=f"{dd["a"]}"', "x=f'{a:{'>'}{w}}'",
+    'x=f"{a!s:>{b}}"', 'x=f"{lambda:1}"' if False else 'x=f"{(lambda:1)}"', 'x=f"{a if b else c}"', 'x=f"{a:{b}{c}}"',
+    # @ adjacency, decorators
+    'x=a@b', 'x=a@-b', '@f\ndef d1():pass', '@o.q\ndef d2():pass', '@f(1)\ndef d3():pass', '@f\n@f\ndef d4():pass',
+    '@a@b\ndef d5():pass' if False else '@(lambda g:g)\ndef d5():pass', '@f\nclass D6:pass', '@l[0]\ndef d7():pass',
+    '@f if a else f\ndef d8():pass', '@(y:=f)\ndef d9():pass', '@ f\ndef d10():pass', '@f\nasync def d11():pass',
+    '@a@b@c\ndef d12():pass', '@-a\ndef d13():pass' if False else '@f or f\ndef d13():pass', '@[f][0]\ndef d14():pass',
+    # unary chains and keyword glue
+    'x=~-+a', 'x=not~a', 'x=--a', 'x=-+-a', 'x=a--b', 'x=a-+b', 'x=a+-b', 'x=a%-b', 'x="%s"%a', 'x=a//-b', 'x=a/-b',
+    'x=1if a else 2', 'x=1or 0', 'x=1and 2', 'x=[1for y in l]', 'x=1in l', 'x=1is 1' if False else 'x=1is a', 'x=not-1',
+    'x=1if 1else 2', 'x=0x1for y in l' if False else 'x=[0x1for y in l]', 'x=1.if a else 2.', 'x=1..real', 'x=1.0.real',
+    'x=1 .real', 'x=1.e1.real', 'x=1j.imag', 'x=1_0 .real', 'x=0 .__class__', 'x=1.__class__' if False else 'x=(1).__class__',
+    # strings glued
+    "x='a''b'", "x='a'\"b\"", "x=rb'a'B\"b\"", "x=f'a'f\"b\"", "x='a'if a else'b'", "x='a'+'b'", "x=b'a'[0]", "x=''.join(l)" if False else "x=''.join",
+    'x="a"[::-1]', "x='a'in'b'", "x='a'not in'b'", "x=u'a'U\"b\"", "x=f'{a}'f'{b}'", "x='a' f'{b}' 'c'", "x=(\n'a'\n'b'\n)",
+    # dots
+    'x=o.q', 'x=o . q', 'x=(o.\nq)', 'x=os.path.join', 'x=f().real', 'x=l[0].real', 'x=o.q.real.imag', 'x=(o\n.q)',
+    # semicolons, continuation lines, comments
+    'x=1;y=2;', 'x=1; y=2 ;z=3', 'if a:pass;pass', 'x = 1 + \\\n    2', 'x = (1 +  # c\n    2)', 'x = [\n1,\n2,\n]', 'if a and \\\n   b: pass',
+    'x = {\n"a": 1,  # c\n}', 'def c1(\n    a,\n    b=1,\n): pass', 'x = f(\n)', 'x = f(\n    a,\n)', 'class C2(\n    K,\n): pass',
+    'x = a if b \\\n else c', 'with f() as x, \\\n     f() as y: pass', 'with (f() as x,\n      f() as y,\n): pass', 'with (f()): pass',
+    'with (f()) as x: pass', 'with (f(), f()): pass', 'with (f() as x): pass', 'for x in l:pass\nelse:pass', 'while a:break\nelse:pass',
+    'try:pass\nexcept(ValueError,TypeError)as e:pass', 'try:pass\nexcept*ValueError:pass', 'try:pass\nexcept*(ValueError,TypeError)as e:pass',
+    'try:pass\nexcept ValueError as e:pass\nelse:pass\nfinally:pass', 'def c3():\n    global x;x=1', 'def c4():\n    y=1\n    def c5():\n        nonlocal y;y=2',
+    'import os.path as p, os as q', 'import os.path', 'from os import(path)', 'from os import path as p,sep as s', 'from os.path import*',
+    'from os import (\n    path,\n    sep,\n)', 'x = yield' if False else 'def c6():\n    x = yield\n    y = yield x\n    z = yield from l\n    return (yield)',
+    'async def c7():\n    async with f() as x, f() as y: pass\n    async for x in f(): pass\n    return [y async for y in f()]',
+    'async def c8():\n    x = await f()\n    y = await f() + await f()\n    z = -await f()\n    return await f(), await f()',
+    'raise ValueError from None', 'raise ValueError(1)from a', 'assert a,"m"', 'assert(a)', 'del x,y', 'del(x)', 'del[x,y]', 'del x,', 'del l[0],o.q',
+    'x=y=z=1', 'x,y=y,x', '(x),(y)=1,2', '[x,[y,z]]=1,[2,3]', 'x=y,=[1]', 'for x,in[[1]]:pass', 'for(x)in l:pass', 'for[x,y]in[l[:2]]:pass',
+    'x=[y for y in l if y if y]', 'x=[y for y in l for z in l]', 'x={y:z for y,z in[l[:2]]}', 'x=(y for y in l)', 'f(y for y in l)',
+    'x=[(y,z)for y in l for z in l if y!=z]', 'x=[y async for y in l]' if False else 'x=[[y for y in l]for z in l]',
+    'print(a,b,sep="",end="")', 'print(a,file=None)', 'print', 'x=print', 'exec("1")', 'x=exec',
+    # soft keywords as ordinary names
+    'match=1', 'case=2', 'type=3' if False else '_=3', 'x=match', 'x=match+case', 'match(x)', 'match[0]' if False else 'match=l;match[0]',
+    'match=o;match.q', 'match,case=1,2', 'match:int=1', 'match=match', 'print(match,case)', 'match=1;match*=2', 'match=f;match(a,b)',
+    'match=1\nmatch -1:\n    case _:pass' if False else 'match -1:\n    case _:pass', 'match x:\n    case _:pass', 'match(x):\n    case _:pass',
+    'match[x]:\n    case[1]:pass', 'match x,y:\n    case 1,2:pass', 'match*l,x:\n    case[*_]:pass', 'match x:\n    case 1|2:pass\n    case str()|int():pass',
+    'match x:\n    case{"a":1,**r}:pass', 'match x:\n    case K(q=1):pass', 'match x:\n    case[1,*r]if r:pass', 'match x:\n    case(1|2)as y:pass',
+    'match x:\n    case-1:pass\n    case 1+2j:pass\n    case-1-2j:pass', 'match x:\n    case o.q:pass', 'match x:\n    case None|True|False:pass',
+    'match x:\n    case"a""b":pass', 'match x:\n    case[]:pass\n    case():pass\n    case{}:pass', 'match x:\n    case _ if(y:=x):pass',
+    'case=1;match case:\n    case 1:pass' if False else 'case=1\nmatch case:\n    case 1:pass', 'match=1\nmatch match:\n    case match:pass' if False else 'match=1\nmatch match:\n    case 1:pass',
+    'def match(case):return case', 'class match:pass' if False else 'class case:pass', 'x=lambda match:match', 'x=lambda case=1:case',
+]
+
+
+def token_snippets(max_dots=7, all_spellings=False):
+    """list of (label, snippet, module_level_only); every snippet is valid on its own after TOKEN_PRELUDE"""
+    out = list(relative_import_snippets(max_dots, all_spellings))
+    out += [('ellipsis_%d' % i, s, False) for i, s in enumerate(_ELLIPSIS_SNIPPETS)]
+    out += [('op_%d' % i, s, False) for i, s in enumerate(_OPERATOR_SNIPPETS)]
+    return out
+
+
+def token_programs(max_dots=7, all_spellings=False, group=24):
+    """-> list of (group label, source, [(label, single-snippet source)]): snippets concatenated `group` at a time after
+    TOKEN_PRELUDE (CPython-validated one by one first; a snippet CPython rejects is dropped and listed under label
+    'rejected')"""
+    import warnings
+    ok, bad = [], []
+    with warnings.catch_warnings():
+        warnings.simplefilter('ignore')
+        for label, s, modlevel in token_snippets(max_dots, all_spellings):
+            src = TOKEN_PRELUDE + s + '\n'
+            try:
+                compile(src, '<tok>', 'exec')
+                ok.append((label, s, src))
+            except SyntaxError as e:
+                bad.append((label, s, str(e)))
+    groups = []
+    for i in range(0, len(ok), group):
+        part = ok[i:i + group]
+        src = TOKEN_PRELUDE + ''.join(s + '\n' for _, s, _ in part)
+        try:
+            with warnings.catch_warnings():
+                warnings.simplefilter('ignore')
+                compile(src, '<tokgroup>', 'exec')
+        except SyntaxError:
+            for label, s, single in part:           # an interaction between snippets: keep them separate
+                groups.append((label, single, [(label, single)]))
+            continue
+        groups.append(('tokgroup_%d' % (i // group), src, [(label, single) for label, _, single in part]))
+    return groups, bad
 
 
 # ---------------------------------------------------------------- mutation
